@@ -251,3 +251,85 @@ Proof.
   cbv zeta. rewrite <- Hpl in E1, E2, E3. rewrite E1, E2, E3. cbn [orb].
   rewrite (scan_mantissa_plain ip fp Hi Hne Hf). reflexivity.
 Qed.
+
+(* ---------------------------------------------------------------- general decimal texts
+   ddd | ddd.ddd | .ddd, each optionally followed by e|E [+|-] ddd  — every decimal / scientific /
+   leading-dot literal of the documented grammar after `_` erasure *)
+Inductive esign := ENone | EPlus | EMinus.
+Definition esign_text (s : esign) : string := match s with ENone => "" | EPlus => "+" | EMinus => "-" end.
+Definition exp_text (ex : option (bool * esign * string)) : string :=
+  match ex with
+  | None => ""
+  | Some (up, sg, ed) => String (if up then "E" else "e")%char (esign_text sg ++ ed)
+  end.
+Definition exp_val (ex : option (bool * esign * string)) : Z :=
+  match ex with
+  | None => 0%Z
+  | Some (_, EMinus, ed) => (- digits_val ed 0)%Z
+  | Some (_, _, ed) => digits_val ed 0
+  end.
+Definition exp_ok (ex : option (bool * esign * string)) : Prop :=
+  match ex with None => True | Some (_, _, ed) => all_digits ed = true /\ ed <> "" end.
+Definition dec_text (ip fp : string) ex : string := ip ++ frac_text fp ++ exp_text ex.
+
+Lemma exp_text_no_digit : forall ex, no_digit_head (exp_text ex).
+Proof. intros [[[[|] sg] ed]|]; simpl; auto. Qed.
+Lemma exp_text_not_dot : forall ex,
+  match exp_text ex with String "." r' => span_digits r' | _ => ("", exp_text ex) end = ("", exp_text ex).
+Proof. intros [[[[|] sg] ed]|]; reflexivity. Qed.
+
+Lemma scan_exponent_exp_text : forall ex, exp_ok ex -> scan_exponent (exp_text ex) = Some (exp_val ex).
+Proof.
+  intros [[[up sg] ed]|] H; [|reflexivity]. destruct H as [Hd Hne].
+  unfold exp_text, scan_exponent.
+  assert (He : Ascii.eqb (lower_c (if up then "E" else "e")) "e" = true) by (destruct up; reflexivity).
+  rewrite He.
+  assert (Hs : split_sign (esign_text sg ++ ed) = (match sg with EMinus => true | _ => false end, ed)).
+  { destruct sg; cbn [esign_text append]; try reflexivity.
+    destruct ed as [|c ed']; [congruence|]. simpl in Hd. apply andb_prop in Hd.
+    apply split_sign_digit. tauto. }
+  rewrite Hs, (span_digits_all ed Hd).
+  destruct ed as [|c ed']; [congruence|]. cbn [is_empty orb negb]. destruct sg; reflexivity.
+Qed.
+
+Lemma scan_mantissa_dec_text : forall ip fp ex,
+  all_digits ip = true -> all_digits fp = true -> (ip <> "" \/ fp <> "") ->
+  scan_mantissa (dec_text ip fp ex) = Some (ip, fp, exp_text ex).
+Proof.
+  intros ip fp ex Hi Hf Hne. unfold scan_mantissa, dec_text.
+  destruct fp as [|c fp'].
+  - cbn [frac_text is_empty append].
+    rewrite (span_digits_app ip _ Hi (exp_text_no_digit ex)).
+    rewrite (exp_text_not_dot ex).
+    destruct ip; [destruct Hne; congruence | reflexivity].
+  - unfold frac_text. cbn [is_empty]. cbv iota.
+    change (("." ++ String c fp') ++ exp_text ex) with (String "." (String c fp' ++ exp_text ex)).
+    rewrite (span_digits_app ip _ Hi); [|reflexivity].
+    cbv beta iota.
+    rewrite (span_digits_app (String c fp') _ Hf (exp_text_no_digit ex)).
+    cbn [is_empty]. now rewrite andb_false_r.
+Qed.
+
+Lemma rust_float_syntax_dec_text : forall ip fp ex,
+  all_digits ip = true -> all_digits fp = true -> (ip <> "" \/ fp <> "") -> exp_ok ex ->
+  rust_float_syntax (dec_text ip fp ex)
+  = Some (FDec false (digits_val (ip ++ fp) 0) (exp_val ex - slen fp)).
+Proof.
+  intros ip fp ex Hi Hf Hne Hex. unfold rust_float_syntax.
+  assert (Hhd : exists c r, dec_text ip fp ex = String c r /\ (is_digit c = true \/ c = "."%char)).
+  { unfold dec_text. destruct ip as [|c ip'].
+    - destruct fp as [|c2 fp']; [destruct Hne; congruence|].
+      exists "."%char, (String c2 fp' ++ exp_text ex). split; [reflexivity | now right].
+    - simpl in Hi. apply andb_prop in Hi. exists c, (ip' ++ frac_text fp ++ exp_text ex).
+      split; [reflexivity | left; tauto]. }
+  destruct Hhd as (c & r & Ht & Hc).
+  assert (Hs : split_sign (dec_text ip fp ex) = (false, dec_text ip fp ex)).
+  { rewrite Ht. destruct Hc as [Hc|Hc]; [now apply split_sign_digit | subst c; reflexivity]. }
+  rewrite Hs. cbv zeta.
+  assert (E : String.eqb (lower_s (dec_text ip fp ex)) "inf" = false /\
+              String.eqb (lower_s (dec_text ip fp ex)) "infinity" = false /\
+              String.eqb (lower_s (dec_text ip fp ex)) "nan" = false).
+  { rewrite Ht. destruct Hc as [Hc|Hc]; [now apply lower_s_digits_head | subst c; repeat split; reflexivity]. }
+  destruct E as (E1 & E2 & E3). rewrite E1, E2, E3. cbn [orb].
+  rewrite (scan_mantissa_dec_text ip fp ex Hi Hf Hne), (scan_exponent_exp_text ex Hex). reflexivity.
+Qed.
